@@ -413,7 +413,7 @@ func c02R2(c *Ctx) {
 			}
 			ok := len(args) == 2 &&
 				p.Origin(args[0]).All(func(x *Org) bool { return x.IsCallTo("(MessageStore).NextSenderMsgSeqNum") }) &&
-				p.Origin(args[1]).All(func(x *Org) bool { return x.IsCallTo("(*Message).build") })
+				p.Origin(args[1]).All(func(x *Org) bool { ff, _ := p.builders(); return x.Kind == "call" && x.Callee == ff })
 			// every read that can reach persist is also one that was stamped
 			stamped := map[ssa.Instruction]bool{}
 			for _, st := range p.setTagCalls(fn, r.tagSeq) {
